@@ -18,16 +18,18 @@ var keep func(func() string)
 func init() { keep = checker.Keep }
 
 // coldStartResult: the very first library calls of the process are rank queries with indexes computed
-// by the oracle (no index builder has run yet).
+// by the oracle (no index builder has run yet). Which of the two rank functions comes first is coldOrder: ALL
+// positions of the first bitmap go to that function before the other one is called at all (a table that one
+// of them fills and the other one only reads), the second bitmap gets both functions in turn for every position.
 var coldStartResult = func() (msg string) {
-	vk.ArmProbe("C01", Case{Style: "cold-start:the process died during its first calls of the library"})
+	vk.ArmProbe("C01", Case{Style: "cold-start:the process died during its first calls of the library", Cold: coldOrder + 1})
 	defer vk.DisarmProbe()
 	defer func() {
 		if r := recover(); r != nil {
 			msg = fmt.Sprintf("first use in the process panicked: %v", r)
 		}
 	}()
-	for _, w := range [][]uint64{{^uint64(0), 0x5, ^uint64(0), 1 << 63}, {0x0123456789abcdef, 0, 0xffff}} {
+	for wi, w := range [][]uint64{{^uint64(0), 0x5, ^uint64(0), 1 << 63}, {0x0123456789abcdef, 0, 0xffff}} {
 		var i64, i128 []int32
 		cnt := int32(0)
 		for k, x := range w {
@@ -43,16 +45,28 @@ var coldStartResult = func() (msg string) {
 		if len(w)%2 == 0 {
 			i128 = append(i128, cnt)
 		}
-		c := int32(0)
-		for i := 0; i < 64*len(w); i++ {
-			bit := int32(w[i/64] >> uint(i%64) & 1)
-			if r, b := bitmap.Rank64(w, i64, int32(i)); r != c || b != bit {
-				return fmt.Sprintf("first use in the process: Rank64(%#x, oracle-built index, %d) = (%d,%d), want (%d,%d)", w, i, r, b, c, bit)
+		// pass 0: the first function only (first bitmap) / both in turn (second bitmap); pass 1: the other function (first bitmap)
+		for pass := 0; pass < 2-wi; pass++ {
+			c := int32(0)
+			for i := 0; i < 64*len(w); i++ {
+				bit := int32(w[i/64] >> uint(i%64) & 1)
+				for turn := 0; turn < 2; turn++ {
+					fn := coldOrder ^ turn
+					if wi == 0 && turn != pass {
+						continue
+					}
+					if fn == 0 {
+						if r, b := bitmap.Rank64(w, i64, int32(i)); r != c || b != bit {
+							return fmt.Sprintf("first use in the process (%s): Rank64(%#x, oracle-built index, %d) = (%d,%d), want (%d,%d)", coldOrderNames[coldOrder], w, i, r, b, c, bit)
+						}
+					} else {
+						if r, b := bitmap.Rank128(w, i128, int32(i)); r != c || b != bit {
+							return fmt.Sprintf("first use in the process (%s): Rank128(%#x, oracle-built index, %d) = (%d,%d), want (%d,%d)", coldOrderNames[coldOrder], w, i, r, b, c, bit)
+						}
+					}
+				}
+				c += bit
 			}
-			if r, b := bitmap.Rank128(w, i128, int32(i)); r != c || b != bit {
-				return fmt.Sprintf("first use in the process: Rank128(%#x, oracle-built index, %d) = (%d,%d), want (%d,%d)", w, i, r, b, c, bit)
-			}
-			c += bit
 		}
 	}
 	return ""
@@ -61,8 +75,9 @@ var coldStartResult = func() (msg string) {
 func TestColdStart(t *testing.T) {
 	vk.SetPhase("coldstart")
 	vk.Label("cold-start-probe", 1)
+	vk.Label("cold-start-order:"+coldOrderNames[coldOrder], 1)
 	if coldStartResult != "" {
-		checker.Run(t, Case{Style: "cold-start:" + coldStartResult})
+		checker.Run(t, Case{Style: "cold-start:" + coldStartResult, Cold: coldOrder + 1})
 	}
 }
 
@@ -127,6 +142,7 @@ type Case struct {
 	Lin    *LinSpec     `json:"lin,omitempty"` // a bitmap of up to 2^25 words checked in one linear pass (lin_test.go)
 	Style  string       `json:"style,omitempty"`
 	Probes []int32      `json:"probes,omitempty"` // extra positions for large bitmaps
+	Cold   int          `json:"cold,omitempty"`   // cold-start cases: coldOrder+1 of the process that failed (a replay starts the same way)
 }
 
 func (c Case) words() []uint64 {
@@ -146,6 +162,7 @@ var checker = &vk.Checker[Case]{
 		"Lengths: every length 0..130 in ascending order at the start of the process, drawn lengths up to 40 / 64 / 130 / a log-uniform bound <= 1024 words (thorough 4096); the empty bitmap is passed as nil, as an empty non-nil slice and as an empty slice with spare capacity; non-empty ones as a private copy, a reused buffer with guarded spare capacity or a slice starting 1..3 words into a larger buffer; some drawn bitmaps get full (or empty) words at k = r mod m only. " +
 		"Bitmaps of 65 .. 2^25 words whose word k is a function of (key, style, k) (uniform, sparse, dense, islands of 2^r words, ones with holes, one bit per word, some words full/empty) are checked in one linear pass with a table popcount of the oracle's own: every entry of all four indexes, Rank64/Rank128 at one offset of every word (every 13th word above 2^20 words; all 64 offsets occur) and at all 64 offsets of ~100 words (first, last, around every power of two, spread by the key); sizes log-uniform up to 2^17 words (thorough 2^20) plus a sweep 2^k-1, 2^k, 2^k+1 and two inner sizes for every octave 2^7..2^16 (up to 2^14 words under every GOMAXPROCS setting in the process that varies it) and 2^17..2^24 (quick: 2^17..2^22, one size per octave). " +
 		"Also the MAXIMUM bitmap - exactly 2^25 words = 2^31 bits, the largest one int32 positions address: three sparse descriptions (oracle from the description: every entry of both indexes, ranks at the top positions, around every set word, around every 2^k and at 192 spread positions in the long zero runs) and dense content with up to 2^31-1 ones (linear pass as above). " +
+		"Order of the calls (a function of the case; labels builder-order, prior-content-at-same-address): the four builders run with IndexRank128 last, first or between the IndexRank64 flavours; for three of four non-empty bitmaps the argument buffer first carries another bitmap of the same length (first, last, one inner or every word different) on which ONE builder (IndexRank64(), IndexRank64(true) or IndexRank128) is called and checked, and is then overwritten in place; after all queries of a bitmap its content is changed in place (inverted, one bit, every word, one word) and back, eight times, and each time the query made last - Rank64 and Rank128 in turn, at the last position queried and three more - is repeated at once for the new content, the index coming from a private copy of that content (nothing is called in between) or from a rebuild on the changed buffer. The first library calls of a process are rank queries with oracle-built indexes: all positions with Rank64 before any Rank128 call, or Rank128 first - the two processes of a quick run take one order each, which one alternates with the seed. " +
 		"Non-trivial: >= 2 words, contains both a 0 and a 1 (so a right-half Rank128 query with a non-zero own-word popcount is executed). Distinct by hash of the case.",
 	Check:    check,
 	Classify: classify,
@@ -193,6 +210,7 @@ func classify(c Case) (bool, []string) {
 	default:
 		labels = append(labels, "len:>4096")
 	}
+	labels = append(labels, planOf(vk.SumU64(w), len(w)).labels(len(w))...)
 	return len(w) >= 2 && has0 && has1, labels
 }
 
@@ -385,12 +403,35 @@ func checkShape(c Case, orig []uint64, shape int, sum uint64) (f *vk.Failure) {
 		}
 	}
 
+	// what the buffer held - and which builder ran on it - right before this bitmap was written into it
+	plan := planOf(sum, n)
+	if plan.prior != 0 {
+		if f := priorStep(words, orig, plan, sum); f != nil {
+			return f
+		}
+	}
+
+	// the four builders, in an order that depends on the case: IndexRank128 last, first (before any IndexRank64
+	// has seen this content) or between the IndexRank64 flavours
 	var idx, idxF, idxT, idx128 []int32
 	if f := vk.Try("IndexRank64/IndexRank128", func() {
-		idx = bitmap.IndexRank64(words)
-		idxF = bitmap.IndexRank64(words, false)
-		idxT = bitmap.IndexRank64(words, true)
-		idx128 = bitmap.IndexRank128(words)
+		switch plan.builders {
+		case 1:
+			idx128 = bitmap.IndexRank128(words)
+			idx = bitmap.IndexRank64(words)
+			idxF = bitmap.IndexRank64(words, false)
+			idxT = bitmap.IndexRank64(words, true)
+		case 2:
+			idxT = bitmap.IndexRank64(words, true)
+			idx128 = bitmap.IndexRank128(words)
+			idx = bitmap.IndexRank64(words)
+			idxF = bitmap.IndexRank64(words, false)
+		default:
+			idx = bitmap.IndexRank64(words)
+			idxF = bitmap.IndexRank64(words, false)
+			idxT = bitmap.IndexRank64(words, true)
+			idx128 = bitmap.IndexRank128(words)
+		}
 	}); f != nil {
 		return f
 	}
@@ -473,7 +514,9 @@ func checkShape(c Case, orig []uint64, shape int, sum uint64) (f *vk.Failure) {
 	}
 
 	// positions to query
+	lastQ := int32(-1)
 	probe := func(i int32) *vk.Failure {
+		lastQ = i
 		wantC, wantB := pre[i], int32(orig[i/64]>>(uint(i)%64)&1)
 		var c1, b1, c2, b2, c3, b3 int32
 		if f := vk.Try("Rank64/Rank128", func() {
@@ -496,13 +539,20 @@ func checkShape(c Case, orig []uint64, shape int, sum uint64) (f *vk.Failure) {
 		return nil
 	}
 
+	// at the very end: the last query (and a few more) again, right after the bitmap changed in place
+	repeat := func() *vk.Failure {
+		if n == 0 || lastQ < 0 {
+			return nil
+		}
+		return repeatStep(words, orig, idxT, idx128, plan, sum, lastQ)
+	}
 	if n <= allPositionsUpTo {
 		for i := 0; i < nbits; i++ {
 			if f := probe(int32(i)); f != nil {
 				return f
 			}
 		}
-		return nil
+		return repeat()
 	}
 	for k := 0; k < n; k++ {
 		for _, i := range []int{64 * k, 64*k + 1, 64*k + 63, 64*k + 62, 64*k + 31, 64*k + 32} {
@@ -532,7 +582,7 @@ func checkShape(c Case, orig []uint64, shape int, sum uint64) (f *vk.Failure) {
 			return f
 		}
 	}
-	return nil
+	return repeat()
 }
 
 // otherBitmaps derives bitmaps that differ from w in content and in length (deterministically).
